@@ -61,7 +61,7 @@ def run(ctx):
     ctx.tlc_ok("Independent_Judge", j)
     for b in ctx.read_ndjson(os.path.join(j.dir, "bad.ndjson")):
         x = obs[b["i"] - 1]
-        what = "+".join(k for k in ("verdict", "table", "effect") if not b[k])
+        what = "+".join(k for k in ("verdict", "table", "effect", "traps") if not b[k])
         ctx.violation("%s:%s:%s" % (x["kind"], "solo" if x["solo"] else "concurrent", what),
                       "run differs from the single-run specification (%s): r=%s status=%s code=%s want=%s fds=%s marker=%r err=%r" % (
                           what, x["r"], x["status"], x["code"], x["want"], x["fds"], x["marker"], x["err"]), x)
